@@ -26,12 +26,16 @@ GETTERS = ("get", "get_parameters", "get_variable_values", "saveparameters", "up
 MUTATORS = ("set", "set_parameters", "addpar", "set_variable_values", "update_yourself", "loadparameters")
 
 
+HARVEST = []
+
+
 class World:
     """one evaluator + file system + helpers to drive the class"""
 
     def __init__(self, mod):
         self.mod = mod
         self.ev = ObjEvaluator(mod, max_depth=10)
+        self.ev.literals_met = HARVEST          # constants the code distinguishes an unknown word from (shared by all worlds)
         self.fs = FileSystem(self.ev)
 
     def new(self, **kw):
@@ -278,6 +282,44 @@ def run(ctx):
         ctx.check(kind == "ok" and same(stt.get("kx"), want) and same(stt.get("ky"), va), "C19:coerce:%s" % name,
                   "for a %s value the store receives %s, expected %s (outcome %s)" % (name, okey(stt.get("kx")), okey(want), (kind, exc)),
                   where("dumbtypecheck"), sample={"case": name, "stored": okey(stt.get("kx"))})
+    # ---- the words the code itself singles out (keys of a look-up table, members of a tuple it tests a value against): the
+    # generic word above is none of them, so each gets its own scenario -- as a value it is still a blank-free non-numeric
+    # string and must be stored, written and read back unchanged
+    ctx.rule("special", "every constant the code distinguishes a stored word from behaves like any other word (store, coercion, save/load)")
+    def is_plain_word(t):
+        if not t or t != t.strip() or any(ch.isspace() for ch in t):
+            return False
+        for conv in (int, float):
+            try:
+                conv(t)
+                return False
+            except ValueError:
+                pass
+        return True
+    specials = [t for t in list(HARVEST) if isinstance(t, str) and is_plain_word(t)]
+    for t in specials:
+        bad = []
+        w = World(mod)
+        p = w.new(kx=t, ky=va)
+        kind, exc = w.outcome(p, "dumbtypecheck")
+        if kind != "ok" or not same(store_of(p).get("kx"), t):
+            bad.append("dumbtypecheck stores %s" % okey(store_of(p).get("kx")))
+        w = World(mod)
+        p = w.new()
+        kind, exc = w.outcome(p, "set_parameters", {"kx": t})
+        got = w.outcome(p, "get", "kx") if kind == "ok" else (kind, exc)
+        if got[0] != "ok" or not same(got[1], t):
+            bad.append("set_parameters then get gives %s" % okey(got[1] if got[0] == "ok" else got))
+        w = World(mod)
+        p = w.new(kx=t, ky=va)
+        w.call(p, "saveparameters", "sp.par")
+        q = w.new()
+        kind, exc = w.outcome(q, "loadparameters", "sp.par")
+        if kind != "ok" or not same(store_of(q).get("kx"), t):
+            bad.append("saveparameters -> loadparameters gives %s" % okey(store_of(q).get("kx")))
+        ctx.check(not bad, "C19:special:%s" % t,
+                  "the string value %r is singled out by the code and does not behave like any other blank-free non-numeric string: %s" % (t, "; ".join(bad)),
+                  where("dumbtypecheck"))
     ctx.not_decided += ["arbitrary histories as such: decided through all (mutator, getter) pairs on the generic model, which give the "
                         "dictionary model by induction over the call sequence",
                         "float -> str -> float is bit exact (language guarantee of repr); values containing blanks are outside the format"]
